@@ -1154,3 +1154,126 @@ Proof. eexists. eexists. repeat split; vm_compute; reflexivity. Qed.
 Lemma fixA_w1_clean : exists s rs, run FixA 1000 w1 io_init [] ops1 = Some (s, [], rs) /\ cleanb s = true /\
   forallb (fun r => match r with ResClose ROk | ResOpen (Some _) | ResWalk true => true | _ => false end) rs = true.
 Proof. eexists. eexists. repeat split; vm_compute; reflexivity. Qed.
+
+(* ============================================================================================ the MLL table *)
+Record MInv (m : mll) (pend : list nat) : Prop := mkMInv {
+  m_cnt : n_open m = length (handles (files m));
+  m_nil : n_open m = 0 -> files m = [] /\ fsize m = 0;
+  m_held : forall h, cnt h (held m) = cnt h (handles (files m));
+  m_pend : forall i h, nth i (files m) None = Some h -> In (i + 1 + foffset m) pend
+}.
+
+Lemma handles_app l1 l2 : handles (l1 ++ l2) = handles l1 ++ handles l2.
+Proof. unfold handles. apply flat_map_app. Qed.
+
+Lemma upd_app_last {A} (l : list A) x y : upd (l ++ [x]) (length l) y = l ++ [y].
+Proof. induction l as [|h t IH]; simpl; [reflexivity|]. rewrite IH. reflexivity. Qed.
+
+Lemma mll_release_inv m pend i h :
+  MInv m pend -> nth i (files m) None = Some h ->
+  MInv (mll_release m i h) (remove_all (i + 1 + foffset m) pend).
+Proof.
+  intros [C Z H P] Hn. destruct (handles_upd_none _ _ _ Hn) as [A B]. unfold mll_release.
+  destruct (Nat.eqb_spec (n_open m - 1) 0) as [E|E].
+  - assert (Hnil : handles (upd (files m) i None) = []) by (apply length_zero_iff_nil; lia).
+    constructor; simpl; auto.
+    + intros h'. destruct (Nat.eq_dec h' h) as [->|Hne].
+      * rewrite cnt_rem1_same, H, A, Hnil, Nat.eqb_refl. simpl. lia.
+      * rewrite cnt_rem1_other by auto. rewrite H, A, Hnil. destruct (Nat.eqb_spec h h'); [congruence|]. reflexivity.
+    + intros i' h'. destruct i'; discriminate.
+  - constructor; simpl; try lia.
+    + intros h'. destruct (Nat.eq_dec h' h) as [->|Hne].
+      * rewrite cnt_rem1_same, H, A, Nat.eqb_refl. lia.
+      * rewrite cnt_rem1_other by auto. rewrite H, A. destruct (Nat.eqb_spec h h'); [congruence|]. reflexivity.
+    + intros i' h' Hn'. destruct (Nat.eq_dec i' i) as [->|Hne].
+      * pose proof (nth_some_lt _ _ _ Hn). rewrite nth_upd_eq in Hn' by lia. discriminate.
+      * rewrite nth_upd_neq in Hn' by auto. apply in_remove_all; [eauto|lia].
+Qed.
+
+Lemma remove_all_notin c l : ~ In c l -> remove_all c l = l.
+Proof.
+  induction l as [|y r IH]; simpl; [reflexivity|]. intros H. destruct (Nat.eqb_spec y c); [subst; tauto|].
+  rewrite IH by tauto. reflexivity.
+Qed.
+
+Lemma mstep_inv m pend o : MInv m pend ->
+  let '(m1, p1, _) := mstep MFixed m pend o in MInv m1 p1.
+Proof.
+  intros HI. pose proof HI as [C Z H P]. destruct o as [oc|fn ok]; simpl.
+  - (* cg_open *)
+    assert (Succ : forall sz, MInv (mkmll (S (n_open m)) (files m ++ [Some (nexth m)]) sz (foffset m) (nexth m :: held m) (S (nexth m)))
+                           (length (files m ++ [Some (nexth m)]) + foffset m :: pend)).
+    { intros sz. constructor; simpl.
+      - rewrite handles_app, app_length. simpl. lia.
+      - discriminate.
+      - intros h. rewrite handles_app, cnt_app. simpl. rewrite H. lia.
+      - intros i h Hn. destruct (Nat.lt_ge_cases i (length (files m))) as [Hi|Hi].
+        + rewrite app_nth1 in Hn by lia. right. eauto.
+        + rewrite app_nth2 in Hn by lia. destruct (i - length (files m)) as [|[|q]] eqn:Eq; simpl in Hn; try discriminate.
+          left. rewrite app_length. simpl. lia. }
+    destruct oc; simpl; auto.
+    + (* late failure, repaired: the entry is released as cg_close would *)
+      set (sz := if Nat.eqb (fsize m) 0 then 1 else if Nat.eqb (length (files m)) (fsize m) then 2 * fsize m else fsize m).
+      pose proof (Succ sz) as S1.
+      pose proof (mll_release_inv _ _ (length (files m)) (nexth m) S1) as R. simpl in R.
+      rewrite app_nth2, Nat.sub_diag in R by lia. specialize (R eq_refl).
+      rewrite app_length in R. simpl in R.
+      replace (length (files m) + 1 + foffset m) with (length (files m) + 1 + foffset m) in R by lia.
+      simpl in R. rewrite Nat.eqb_refl in R.
+      destruct (mll_release _ _ _) eqn:Em in R |- *.
+      destruct R as [C1 Z1 H1 P1]. constructor; auto.
+      intros i h Hn. specialize (P1 i h Hn).
+      destruct (in_dec Nat.eq_dec (length (files m) + 1 + foffset m) pend) as [Hin|Hnin].
+      * (* that number cannot be pending: it would name a live entry beyond the table *)
+        clear - P1 Hin. induction pend as [|y r IH]; simpl in *; [tauto|].
+        destruct (Nat.eqb_spec y (length (files m) + 1 + foffset m)); simpl in P1; auto.
+        destruct P1; auto.
+      * rewrite remove_all_notin in P1 by exact Hnin. exact P1.
+    + apply Succ.
+  - (* cg_close *)
+    unfold cg_close.
+    assert (NoLive : forall i h, nth i (files m) None = Some h -> i + 1 + foffset m = fn ->
+                     ((fn <=? foffset m) || (length (files m) <? fn - foffset m)) = false /\
+                     nth (fn - foffset m - 1) (files m) None = Some h).
+    { intros i h Hn <-. pose proof (nth_some_lt _ _ _ Hn). split.
+      - apply orb_false_intro; [apply Nat.leb_gt; lia|apply Nat.ltb_ge; lia].
+      - replace (i + 1 + foffset m - foffset m - 1) with i by lia. exact Hn. }
+    assert (Same : forall b, (forall i h, nth i (files m) None = Some h -> i + 1 + foffset m <> fn) ->
+                   MInv m (if b then remove_all fn pend else pend)).
+    { intros b Hno. destruct b; auto. constructor; auto. intros i h Hn. apply in_remove_all; eauto. }
+    destruct ((fn <=? foffset m) || (length (files m) <? fn - foffset m)) eqn:Bad; simpl.
+    + apply Same. intros i h Hn Heq. destruct (NoLive i h Hn Heq). congruence.
+    + destruct (nth (fn - foffset m - 1) (files m) None) as [h|] eqn:En; simpl.
+      * apply orb_false_elim in Bad. destruct Bad as [B1 B2]. apply Nat.leb_gt in B1. apply Nat.ltb_ge in B2.
+        destruct ok; simpl; auto.
+        pose proof (mll_release_inv _ _ _ _ HI En) as R.
+        replace (fn - foffset m - 1 + 1 + foffset m) with fn in R by lia. exact R.
+      * apply Same. intros i h Hn Heq. destruct (NoLive i h Hn Heq). congruence.
+Qed.
+
+Lemma mrun_inv ops : forall m pend, MInv m pend -> let '(m1, p1) := mrun MFixed m pend ops in MInv m1 p1.
+Proof.
+  induction ops as [|o r IH]; intros m pend H; simpl; auto.
+  pose proof (mstep_inv m pend o H) as S1. destruct (mstep MFixed m pend o) as [[m1 p1] x]. apply IH. exact S1.
+Qed.
+
+Theorem mll_released_fixed : forall ops m, mrun MFixed mll_init [] ops = (m, []) -> mclean m.
+Proof.
+  intros ops m Rn.
+  assert (I0 : MInv mll_init []).
+  { constructor; simpl; auto. intros i h. destruct i; discriminate. }
+  pose proof (mrun_inv ops _ _ I0) as R. rewrite Rn in R. destruct R as [C Z H P].
+  assert (Hh : handles (files m) = []).
+  { apply handles_all_none. intros c. destruct (nth c (files m) None) eqn:E; auto. exfalso. eapply P; eauto. }
+  rewrite Hh in C, H. simpl in C. destruct (Z C) as [Z1 Z2].
+  unfold mclean. repeat split; auto. apply all_cnt_zero_nil. intros h. rewrite H. reflexivity.
+Qed.
+
+(* the code as it is: one cg_open that fails after cgio_open_file succeeded; the user holds nothing, the library does *)
+Lemma mll_refuted_failed_open :
+  exists m, mrun MFaithful mll_init [] [MOpen OLateFail] = (m, []) /\ n_open m = 1 /\ held m = [0] /\ files m = [Some 0].
+Proof. eexists. repeat split; reflexivity. Qed.
+
+Lemma mll_fixed_failed_open :
+  exists m, mrun MFixed mll_init [] [MOpen OLateFail] = (m, []) /\ n_open m = 0 /\ held m = [] /\ files m = [].
+Proof. eexists. repeat split; reflexivity. Qed.
